@@ -260,7 +260,25 @@ def run_property(mod, tier: str, seed: int, replay: str | None = None, runs_over
     }
     if hasattr(mod, "extra_coverage"):
         coverage.update(mod.extra_coverage(uniq))
-    simkit.write_evidence(prop, tier, seed, mod.LEVEL, coverage, mod.ASSUMPTIONS, wall_s, len(new_sigs))
+    if not os.environ.get("VERIF_NO_EVIDENCE"):
+        simkit.write_evidence(prop, tier, seed, mod.LEVEL, coverage, mod.ASSUMPTIONS, wall_s, len(new_sigs))
+    alt_rc = 0
+    n_alt = budget.get("alt_hashseed_runs", 0)
+    if n_alt and not os.environ.get("VERIF_NO_ALT") and not new_sigs:
+        import subprocess
+
+        env = dict(os.environ, PYTHONHASHSEED="20011", VERIF_NO_ALT="1", VERIF_NO_EVIDENCE="1",
+                   VERIF_SEED=str(seed + 1))
+        pr = subprocess.run([sys.executable, "-u", str(simkit.VERIF / "simcheck" / "main.py"), prop, "--tier", tier,
+                             "--runs", str(n_alt)], env=env, capture_output=True, text=True, check=False)
+        sys.stdout.write(pr.stdout)
+        sys.stderr.write(pr.stderr[-2000:])
+        alt_rc = pr.returncode
+        coverage["alt_hashseed_run"] = {"PYTHONHASHSEED": 20011, "runs": n_alt, "exit": alt_rc}
+        simkit.write_evidence(prop, tier, seed, mod.LEVEL, coverage, mod.ASSUMPTIONS,
+                              simkit.real_monotonic() - t0, len(new_sigs) + (1 if alt_rc == 1 else 0))
+        if alt_rc == 2:
+            return 2
     print(f"{prop} {tier}: runs={len(uniq)} nontrivial-distinct={len(digests)} "
           f"violations={len(new_sigs)} known={len(known_hit)} wall={wall_s:.1f}s")
-    return 1 if new_sigs else 0
+    return 1 if (new_sigs or alt_rc == 1) else 0
